@@ -242,7 +242,7 @@ pub fn main(ctx: &Ctx) {
     ctx.assume("bounds use the caller's clock from before the first to after the last call of each window (plus 0.001 token for floating-point rounding), so elapsed time can only loosen them");
     ctx.assume("the refund and no-false-refusal rules are judged on single-threaded scripts only");
     run_committed_replays(ctx, &C19);
-    run_pbt(ctx, &C19, ctx.tier.pick(400, 6_000));
+    run_pbt(ctx, &C19, ctx.tier.pick(2_000, 30_000));
 }
 
 pub fn replay(ctx: &Ctx, v: &serde_json::Value) -> Option<i32> {
